@@ -588,3 +588,81 @@ Theorem gen_leaf_hypotheses_satisfiable :
   forall z o z', one_leaf_scan z = Ok (o, z') -> exists pre, z_toks z = pre ++ z_toks z'.
 Proof. exact one_leaf_scan_consumes. Qed.
 Print Assumptions gen_leaf_hypotheses_satisfiable.
+
+(* ============ wave 7: the class compiled at OBJECT level (Gen/RoutesMapperObj.v) ============ *)
+(* py/dv/gen_routes_mapper_obj.py decides from the AST which container object each statement allocates, rebinds, mutates
+   in place or reads; an attribute that __init__ does not bind before use but the CLASS BODY binds resolves to the one
+   container of the class (shared by every instance) and is listed in gmo_class_level. *)
+From DV Require Import Model.C13MapObjPrims Gen.RoutesMapperObj Proofs.C13MapObj Proofs.C13MapObjSys.
+
+(* no table of NexusTaxonSymbolMapper is class-level *)
+Theorem gen_mapper_no_class_level_container : gmo_class_level = [].
+Proof. exact C13MapObj.gmo_no_class_level_container. Qed.
+Print Assumptions gen_mapper_no_class_level_container.
+
+(* every compiled method, on a mapper object o of a store w in which o is well-formed, computes what its value-level twin
+   (Gen/RoutesMapper.v, proved equal to the model's mapper above) computes on the dereferenced object; the new store
+   dereferences to the twin's result, stays well-formed, and (inv) changes no container that existed and that o did not
+   hold; whatever the object holds afterwards it held before or is new.  Errors are the same. *)
+Theorem gen_mapper_obj_lookup_refines :
+  forall (lower : str -> str) (cls : mcls) (w : world) (o : mref) (sym : str) (create : bool),
+  wfo w o ->
+  match gm_lookup_taxon_symbol lower (deref w o) sym create with
+  | Ok (a, m') => exists o' w', gmo_lookup_taxon_symbol lower cls o w sym create = Ok (a, o', w')
+                                /\ deref w' o' = m' /\ inv w o w' o'
+  | Err e => gmo_lookup_taxon_symbol lower cls o w sym create = Err e
+  | OutOfFuel => gmo_lookup_taxon_symbol lower cls o w sym create = OutOfFuel
+  end.
+Proof. exact (fun lower cls w o sym create H => sim_lookup_taxon_symbol lower cls w o w o sym create (inv_refl w o H)). Qed.
+Print Assumptions gen_mapper_obj_lookup_refines.
+
+Theorem gen_mapper_obj_add_translate_token_refines :
+  forall (lower : str -> str) (cls : mcls) (w : world) (o : mref) (tok : str) (taxon : nat),
+  wfo w o ->
+  match gm_add_translate_token lower (deref w o) tok taxon with
+  | Ok (a, m') => exists o' w', gmo_add_translate_token lower cls o w tok taxon = Ok (a, o', w')
+                                /\ deref w' o' = m' /\ inv w o w' o'
+  | Err e => gmo_add_translate_token lower cls o w tok taxon = Err e
+  | OutOfFuel => gmo_add_translate_token lower cls o w tok taxon = OutOfFuel
+  end.
+Proof. exact (fun lower cls w o tok taxon H => sim_add_translate_token lower cls w o w o tok taxon (inv_refl w o H)). Qed.
+Print Assumptions gen_mapper_obj_add_translate_token_refines.
+
+(* construction: on ANY store and any blank object the value-level result, in four containers that did not exist;
+   no existing container changes *)
+Theorem gen_mapper_obj_init_refines :
+  forall (lower : str -> str) (cls : mcls) (o0 : mref) (w : world) (m0 : mobj) (ns : nsobj) (b : bool),
+  match gm_init lower m0 ns b with
+  | Ok (_, m') => exists o' w', gmo_init lower cls o0 w ns b = Ok (tt, o', w')
+                   /\ deref w' o' = m' /\ wfo w' o' /\ (w_next w <= w_next w')%nat
+                   /\ (forall c, In c (refs o') -> (w_next w <= c)%nat)
+                   /\ (forall c, (c < w_next w)%nat -> wn_get w' c = wn_get w c /\ ws_get w' c = ws_get w c)
+  | Err e => gmo_init lower cls o0 w ns b = Err e
+  | OutOfFuel => gmo_init lower cls o0 w ns b = OutOfFuel
+  end.
+Proof. exact sim_init. Qed.
+Print Assumptions gen_mapper_obj_init_refines.
+
+(* two readers in one store, ANY namespaces (locked ones included: errors are the same), any schedule: the interleaved
+   object-level run = the value-level run on two separate values; and the value-level run gives each side what its own
+   steps give alone *)
+Theorem gen_interleaved_is_separate :
+  forall (lower : str -> str) (cls : mcls) (w0 : world) (oA0 oB0 : mref) (nsA : nsobj) (bA : bool) (nsB : nsobj) (bB : bool)
+         (sched : list (bool * mop)),
+  osys2 lower cls w0 oA0 oB0 nsA bA nsB bB sched = vsys2 lower nsA bA nsB bB sched.
+Proof. exact interleaved_is_separate. Qed.
+Print Assumptions gen_interleaved_is_separate.
+
+Theorem gen_interleaved_any_store :
+  forall (lower : str -> str) (cls : mcls) (sched : list (bool * mop)) (w : world) (oA oB : mref),
+  wfo w oA -> wfo w oB -> (forall c, In c (refs oA) -> ~ In c (refs oB)) ->
+  orun2 lower cls oA oB w sched = vrun2 lower (deref w oA) (deref w oB) sched.
+Proof. exact orun2_is_vrun2. Qed.
+Print Assumptions gen_interleaved_any_store.
+
+Theorem gen_separate_is_alone :
+  forall (lower : str -> str) (sched : list (bool * mop)) (mA mB : mobj) (outA outB : list (option nat)),
+  vrun2 lower mA mB sched = Ok (outA, outB) ->
+  vrun1 lower mA (ops_of false sched) = Ok outA /\ vrun1 lower mB (ops_of true sched) = Ok outB.
+Proof. exact vrun2_alone. Qed.
+Print Assumptions gen_separate_is_alone.
